@@ -339,6 +339,7 @@ pub fn bases() -> Vec<(&'static str, Vec<Member>)> {
         ("hidden_member_with_array", vec![m("h", Node::Arr(vec![e(leaf(json!(1)), true), e(Node::Obj(vec![m("w", leaf(json!(2)), true)]), false)]), true)]),
         ("no_sd_at_all", vec![m("v", leaf(json!(1)), false), m("o", Node::Obj(vec![m("k", leaf(json!([1, 2])), false)]), false)]),
         ("single_disclosure", vec![m("x", leaf(json!("only")), true)]),
+        ("null_and_empty_siblings", vec![m("n", leaf(Value::Null), false), m("x", leaf(json!(1)), true), m("e", leaf(json!("")), false), m("y", leaf(Value::Null), true), m("z", leaf(json!(false)), true)]),
         ("everything", vec![
             m("a", Node::Obj(vec![m("b", Node::Arr(vec![e(leaf(json!(1)), true), e(Node::Obj(vec![m("c", leaf(json!(2)), true)]), true)]), true), m("e", leaf(json!({})), true)]), true),
             m("f", leaf(json!([])), false),
